@@ -8,7 +8,7 @@ import xml.etree.ElementTree as ET
 
 from vf import ref_schema as S
 from vf import universe as U
-from vf.core import HarnessError, Tally
+from vf.core import vacuous, HarnessError, Tally
 
 LEVEL = "exploration"
 
@@ -210,21 +210,21 @@ def run(ctx):
     rot = ctx.seed % len(classes)
     tally.merge(ctx.pmap(work, classes[rot:] + classes[:rot]))
     if tally.counts.get("classes", 0) < 380 or tally.counts.get("children", 0) < 2000 or tally.counts.get("groups", 0) < 30:
-        raise HarnessError(f"vacuous: {tally.counts}")
+        vacuous(tally, f"vacuous: {tally.counts}")
     tally.sample({"class": "STMTRS", "children": [repr(c) for c in S.children(S.all_classes()[0])][:3]})
     tally.sample({"probe": "BILLPAYMSGSRSV1 with one PMTMAILTRNRS member: construct, to_etree, from_etree, compare"})
     cov = {
-        "evaluations": tally.counts["evaluations"],
-        "distinct_nontrivial": tally.counts["probes"] + tally.counts["groups"] + tally.counts["list-probes"],
+        "evaluations": tally.counts.get("evaluations", 0),
+        "distinct_nontrivial": tally.counts.get("probes", 0) + tally.counts.get("groups", 0) + tally.counts.get("list-probes", 0),
         "rule": "every concrete aggregate class (ALL-CAPS, found by its tag) x every declared child (static: member class exported, attribute name = "
         "lower-cased member class name, not Unsupported beyond the 24 documented ones) x every group declared on any base (names existing, optional, "
         "non-repeated children; in force in the class) + one construct/to_etree/from_etree probe per child on the smallest instance containing it + one "
         "full-instance probe per class with repeated kinds; non-trivial = probes and group checks (static per-child checks counted in evaluations only)",
-        "classes": tally.counts["classes"],
-        "children": tally.counts["children"],
-        "groups": tally.counts["groups"],
-        "probes": tally.counts["probes"],
-        "programs": tally.counts["classes"],
+        "classes": tally.counts.get("classes", 0),
+        "children": tally.counts.get("children", 0),
+        "groups": tally.counts.get("groups", 0),
+        "probes": tally.counts.get("probes", 0),
+        "programs": tally.counts.get("classes", 0),
         "exhaustive": True,
     }
     return {"tally": tally, "coverage": cov, "assumptions": [
